@@ -102,6 +102,12 @@ func verdict(j *judged) (string, string) {
 		return "", ""
 	}
 	fam := p.Family
+	if p.Src != "" {
+		if strings.HasPrefix(j.o.Other, "source ") {
+			return "", "" // the renderer left the grammar: not an observation of the evaluator
+		}
+		fam = "via-parser:" + fam
+	}
 	if j.o.Other != "" {
 		return "abnormal-end:"+fam, fmt.Sprintf("[%s] evaluation ended abnormally (%s): %s", fam, j.o.Other, progText(p))
 	}
@@ -176,7 +182,7 @@ func gObs(o obs) string {
 }
 
 func gCase(p *Prog, o obs) string {
-	return fmt.Sprintf("(%s, %s, %s, %s, %s)", gViews(p), gStr(p.Main), gKVs(p.Scope), gObs(o), common.GBool(p.Typed && p.Family != "matrix"))
+	return fmt.Sprintf("(%s, %s, %s, %s, %s)", gViews(p), gStr(p.Main), gKVs(p.Scope), gObs(o), common.GBool(p.Typed && p.Family != "matrix" && p.Family != "depth2"))
 }
 
 // let-rebinding family (reported under its own key): a let of the main body takes the name of a parameter
@@ -211,6 +217,35 @@ func shapeNestedLetRebind(r *common.Rng) *Prog {
 		sAssign("inner", eName("r")),
 	}
 	return &Prog{Typed: true, Family: "nested-let-rebinds-outer-let", Main: "main", Scope: []KV{{"p0", vInt(0)}},
+		Views: []View{{Name: "main", Params: []string{"p0"}, Body: eTr(eName("p0"), ".", "other", st...)}}}
+}
+
+// unions of int / string sets written unsorted and with repeats, visible in the result
+func shapeSetUnion(r *common.Rng) *Prog {
+	mk := func(str bool) *Expr {
+		n := 1 + r.Intn(4)
+		var es []*Expr
+		for i := 0; i < n; i++ {
+			if str {
+				es = append(es, eLit(vStr(strPool[r.Intn(len(strPool))])))
+			} else {
+				es = append(es, eLit(vInt(intPool[r.Intn(len(intPool))])))
+			}
+		}
+		return eSet(es...)
+	}
+	st := []Stmt{
+		sLet("a", mk(false)), sLet("b", mk(false)), sLet("s", mk(true)), sLet("t", mk(true)),
+		sLet("u", eBin("BITOR", eName("a"), eName("b"))),
+		sAssign("ints", eName("u")),
+		sAssign("again", eBin("BITOR", eName("u"), eName("a"))),
+		sAssign("strs", eBin("BITOR", eName("s"), eName("t"))),
+		sAssign("self", eBin("BITOR", eName("s"), eName("s"))),
+		sAssign("n", eCall(".count", eName("u"))),
+		sAssign("a_after", eName("a")),
+		sAssign("has", eBin("IN", eLit(vStr("a")), eBin("BITOR", eName("s"), eName("t")))),
+	}
+	return &Prog{Typed: true, Family: "set-union", Main: "main", Scope: []KV{{"p0", vInt(0)}},
 		Views: []View{{Name: "main", Params: []string{"p0"}, Body: eTr(eName("p0"), ".", "other", st...)}}}
 }
 
@@ -265,6 +300,74 @@ func matrix(each func(p *Prog)) int {
 	return n
 }
 
+// ---- depth 2: every well-typed composition of two operators over the literal pool ----
+// inner = a depth-1 matrix expression whose value the reference defines (one representative per distinct value and
+// operator); outer = every operator of the dispatch tables with the inner expression on either side and a leaf of
+// the small pool on the other. `each` gets the program and whether the reference defines its value.
+func depth2(each func(p *Prog, defined bool)) int {
+	leaves := matrixLeaves()
+	type inner struct{ e *Expr }
+	var inners []inner
+	seen := map[string]bool{}
+	note := func(e *Expr) {
+		v, _, err := refRun(matrixProg(e))
+		if err != nil {
+			return
+		}
+		k := rootLabel(e) + "=" + v.String()
+		if !seen[k] {
+			seen[k] = true
+			inners = append(inners, inner{e})
+		}
+	}
+	for _, op := range binops {
+		for _, l := range leaves {
+			for _, r := range leaves {
+				sv := ""
+				if op == "WHERE" || op == "FLATTEN" {
+					sv = "."
+				}
+				note(eBinSv(op, l, r, sv))
+			}
+		}
+	}
+	for _, op := range unops {
+		for _, l := range leaves {
+			note(eUn(op, l))
+		}
+	}
+	small := []*Expr{eLit(vInt(3)), eLit(vInt(-4)), eLit(vStr("a")), eLit(vBool(true)), eLit(vList([]*Val{vInt(1), vInt(1)})),
+		eLit(vList([]*Val{vStr("a"), vStr("b")})), eLit(vSet([]*Val{vInt(2), vInt(1), vInt(2)})), eLit(vSet([]*Val{vStr("b"), vStr("a")})),
+		eBin("EQ", eName("."), eLit(vStr("a"))), eBin("GT", eName("."), eLit(vInt(1)))}
+	tableOps := []string{"EQ", "NE", "LT", "LE", "GT", "GE", "IN", "NOT_IN", "ADD", "SUB", "MUL", "DIV", "MOD", "AND", "BITOR", "WHERE", "FLATTEN"}
+	n := 0
+	emit := func(e *Expr) {
+		p := matrixProg(e)
+		p.Family = "depth2"
+		_, _, err := refRun(p)
+		each(p, err == nil)
+		n++
+	}
+	for _, in := range inners {
+		for _, op := range tableOps {
+			sv := ""
+			if op == "WHERE" || op == "FLATTEN" {
+				sv = "."
+			}
+			for _, c := range small {
+				emit(eBinSv(op, in.e, c, sv))
+				emit(eBinSv(op, c, in.e, sv))
+			}
+		}
+		for _, op := range []string{"NEG", "SINGLE", "STRING"} {
+			emit(eUn(op, in.e))
+		}
+		emit(eCall(".count", in.e))
+		emit(eIf(in.e, eLit(vInt(1)), eLit(vInt(2))))
+	}
+	return n
+}
+
 func main() {
 	if len(os.Args) > 1 && os.Args[1] == "worker" {
 		workerMain()
@@ -272,7 +375,7 @@ func main() {
 	}
 	c := common.Setup("C10")
 	defer c.Finish()
-	c.Res.Rule = "each case = (views of one transform application, caller's scope) evaluated by the real eval.EvaluateView in a worker subprocess; streams: typed programs over the modelled operators (lets reused by later statements, helper views, iterations whose scope variable shadows a binding), the Appendix-B shapes (a list bound once and concatenated twice; where/flatten/transform whose scope variable equals an outer binding; set-typed transforms producing duplicates), a let that takes a parameter's name / an outer let's name from inside a nested transform, the operator x kind x kind matrix at depth 1, blind mutants of typed programs (model comparison only); distinct = distinct program JSON; non-trivial = the main body applies at least one operator, transform or call"
+	c.Res.Rule = "each case = (views of one transform application, caller's scope) evaluated by the real eval.EvaluateView in a worker subprocess; streams: typed programs over the modelled operators (lets reused by later statements, helper views, iterations whose scope variable shadows a binding), the Appendix-B shapes (a list bound once and concatenated twice; where/flatten/transform whose scope variable equals an outer binding; set-typed transforms producing duplicates; plus unions of unsorted int / string sets with repeats), a let that takes a parameter's name / an outer let's name from inside a nested transform, the operator x kind x kind matrix at depth 1, all compositions of two operators over the literal pool whose value the reference defines (depth 2), blind mutants of typed programs (model comparison only); distinct = distinct program JSON; non-trivial = the main body applies at least one operator, transform or call"
 	par := 8
 
 	if c.Replay != "" {
@@ -311,7 +414,7 @@ func main() {
 	// A. Appendix-B shapes + the let-rebinding family
 	nshape := 40 * scale
 	for i := 0; i < nshape; i++ {
-		progs = append(progs, shapeConcatTwice(c.Rng.Fork()), shapeScopeVarShadow(c.Rng.Fork()), shapeSetTransformDup(c.Rng.Fork()))
+		progs = append(progs, shapeConcatTwice(c.Rng.Fork()), shapeScopeVarShadow(c.Rng.Fork()), shapeSetTransformDup(c.Rng.Fork()), shapeSetUnion(c.Rng.Fork()))
 		if i%8 == 0 {
 			progs = append(progs, shapeLetRebind(c.Rng.Fork()), shapeNestedLetRebind(c.Rng.Fork()))
 		}
@@ -326,6 +429,25 @@ func main() {
 		}
 		progs = append(progs, g.program(depth))
 	}
+	// B2. the same programs through the real parser, where they can be written as view source
+	nsrc := 0
+	why := map[string]int{}
+	for _, p := range append([]*Prog(nil), progs...) {
+		if p.Family == "let-rebinds-parameter" || p.Family == "nested-let-rebinds-outer-let" {
+			continue
+		}
+		src, w := renderSource(p)
+		if src == "" {
+			why[w]++
+			continue
+		}
+		q := cloneProg(p)
+		q.Src = src
+		progs = append(progs, q)
+		nsrc++
+	}
+	c.Res.Extra["via_parser_programs"] = nsrc
+	c.Res.Extra["not_renderable"] = why
 	// C. hostile: blind mutants of typed programs
 	nhost := 250 * scale
 	for i := 0; i < nhost; i++ {
@@ -335,17 +457,48 @@ func main() {
 		mutate(c.Rng.Fork(), p, feat)
 		progs = append(progs, p)
 	}
-	// D. operator x kind x kind matrix: all of it in thorough / search, a seeded 1/40 in quick
+	// D. operator x kind x kind matrix: the well-typed entries always, the others all in thorough / search and a seeded 1/60 in quick
 	k := 0
+	nmdef := 0
 	total := matrix(func(p *Prog) {
 		k++
-		if c.Thorough() || c.Search || (uint64(k)*2654435761+c.Seed*7919)%40 == 0 {
+		_, _, err := refRun(p)
+		if err == nil {
+			nmdef++ // the reference defines its value: a well-typed depth-1 body, always run
+		}
+		if err == nil || c.Thorough() || c.Search || (uint64(k)*2654435761+c.Seed*7919)%60 == 0 {
 			progs = append(progs, p)
 		}
 	})
 	c.Res.Extra["matrix_total"] = total
+	c.Res.Extra["matrix_well_typed"] = nmdef
 	if c.Thorough() || c.Search {
 		c.Res.Extra["matrix_exhaustive"] = true
+	}
+
+	// E. depth 2 over the literal pool: every composition the reference defines (thorough / search; a seeded 1/50 in
+	// quick), and a seeded 1/12 (quick: 1/1500) of the others (they fail to evaluate: compared with the model)
+	k = 0
+	nd2, nd2def := 0, 0
+	total2 := depth2(func(p *Prog, defined bool) {
+		k++
+		h := (uint64(k)*2654435761 + c.Seed*104729) % 3000
+		big := c.Thorough() || c.Search
+		switch {
+		case defined && (big || h < 60):
+			nd2def++
+		case !defined && ((big && h < 250) || h < 2):
+		default:
+			return
+		}
+		nd2++
+		progs = append(progs, p)
+	})
+	c.Res.Extra["depth2_total"] = total2
+	c.Res.Extra["depth2_run"] = nd2
+	c.Res.Extra["depth2_well_typed_run"] = nd2def
+	if c.Thorough() || c.Search {
+		c.Res.Extra["depth2_well_typed_exhaustive"] = true
 	}
 
 	// run the real evaluator
@@ -354,7 +507,7 @@ func main() {
 	var again []*Prog
 	var againIdx []int
 	for i, p := range progs {
-		if p.Typed && p.Family != "matrix" {
+		if p.Typed && p.Family != "matrix" && p.Family != "depth2" {
 			again = append(again, p)
 			againIdx = append(againIdx, i)
 		}
@@ -366,6 +519,8 @@ func main() {
 		second[i] = &o
 	}
 
+	nbad := 0
+	srcSampled := map[string]bool{}
 	cs := c.NewCases("C10", caseHeader, "c10_case", caseFooter, 150)
 	for i, p := range progs {
 		j := &judged{p: p, o: obsv[i], o2: second[i]}
@@ -397,6 +552,22 @@ func main() {
 		if hasLetShadow(p) {
 			c.Hist("has-let-shadow")
 		}
+		if p.Src != "" {
+			c.Hist("route:parser")
+			c.Hist("route:parser:" + p.Family)
+			if !srcSampled[p.Family] && obsv[i].Other == "" {
+				srcSampled[p.Family] = true
+				c.Res.Extra["via_parser_sample:"+p.Family] = map[string]string{"source": p.Src, "observed": obsString(obsv[i])}
+			}
+			if strings.HasPrefix(obsv[i].Other, "source ") {
+				c.Hist("route:parser:" + obsv[i].Other[:24])
+				if nbad < 3 {
+					nbad++
+					c.Res.Notes = append(c.Res.Notes, "rendered source the parser rejected: "+obsv[i].Other+" :: "+p.Src)
+				}
+			}
+			continue // the parser's AST is not the generated one: judged by the oracle, not compared with the model
+		}
 		cs.Add(gCase(p, obsv[i]), p)
 		if i%(len(progs)/5+1) == 0 {
 			c.Sample(map[string]interface{}{"family": p.Family, "program": p.Views, "scope": p.Scope, "observed": obsString(obsv[i])})
@@ -412,5 +583,4 @@ func main() {
 		c.HistN("feature:"+f, feat[f])
 	}
 	c.Res.Extra["programs"] = len(progs)
-	_ = strings.Join
 }
